@@ -91,6 +91,9 @@ def gen(rnd, i):
             c['b'] = [v - rnd.choice([0, 1, 2]) for v in ax]
         else:
             c['b'] = ax
+    for k, c in enumerate(cons):
+        # every third constraint is written as a 2-D expression (column or row matrix): dual() must come back in that shape
+        c['shape2d'] = [None, 'col', 'row'][(i + k) % 3]
     return dict(name='lp%d' % i, n1=n1, n2=n2, cons=cons, bnds=bnds, c=[g() for _ in range(n)],
                 sense=rnd.choice(['min', 'max']), front=['ro', 'lp', 'ro-wc'][i % 3], order=['obj_last', 'obj_first'][(i // 2) % 2])
 
@@ -128,6 +131,9 @@ def build(spec):
         if y is not None:
             e = e + A[:, n1:] @ y
         b = np.array(c['b'], dtype=float)
+        if c.get('shape2d'):
+            shp = (len(c['b']), 1) if c['shape2d'] == 'col' else (1, len(c['b']))
+            e, b = e.reshape(shp), b.reshape(shp)
         con = (e <= b) if c['s'] == 'le' else ((e >= b) if c['s'] == 'ge' else (e == b))
         objs.append(m.st(con))
     bobjs = []
@@ -246,6 +252,12 @@ def run_case(case, ses):
     try:
         for k, (con, rows) in enumerate(zip(objs, groups)):
             d = con.dual()
+            c_ = spec['cons'][k]
+            if c_.get('shape2d'):
+                want = (len(rows), 1) if c_['shape2d'] == 'col' else (1, len(rows))
+                if np.shape(d) != want:
+                    shape_bad.append('constraint %d has shape %s but dual() has shape %s' % (k, want, np.shape(d)))
+                    continue
             arr = parr(d).reshape(-1)
             if len(arr) != len(rows):
                 shape_bad.append('constraint %d: dual has %d entries for %d rows' % (k, len(arr), len(rows)))
